@@ -225,9 +225,68 @@ def make_world(spec, flavour):
     return tree, nodes, mk, view.obs(tree)
 
 
+def mutations(spec, flavour):
+    """single changes applied between a first evaluation and the checked search"""
+    n = len(spec)
+    labs = ALPHABET[flavour]
+    out = []
+    for i in range(n):
+        for lab in labs:
+            if lab != spec.nodes[i][1]:
+                out.append(["set_data", i, lab, True])
+                out.append(["set_data", i, lab, False])
+        out.append(["remove", i])
+        for j in [-1] + list(range(n)):
+            if j != i:
+                out.append(["move", i, j])
+        out.append(["add", i, labs[-1]])
+    return out
+
+
+def warmed_and_mutated(spec, flavour, mut):
+    """fresh tree; evaluate every name and a few searches; apply `mut`; world of the changed tree (None if refused)"""
+    tree, nodes, mk = build(spec, flavour)
+    for n in nodes:
+        n.name, repr(n), str(n)
+    tree.find_all(match=".*"), tree.find_first(match=".*"), tree.format()
+    for n in nodes:
+        n.find_all(match=".*", add_self=True)
+    try:
+        if mut[0] == "set_data":
+            nodes[mut[1]].set_data(mk(mut[2]), with_clones=mut[3])
+        elif mut[0] == "remove":
+            nodes[mut[1]].remove()
+        elif mut[0] == "move":
+            nodes[mut[1]].move_to(tree if mut[2] == -1 else nodes[mut[2]])
+        elif mut[0] == "add":
+            nodes[mut[1]].add(mk(mut[2]))
+    except Exception:  # noqa: BLE001  (refused changes are the business of C03/C13)
+        return None
+    now = pre(tree._root)
+    return tree, now, mk, view.obs(tree)
+
+
+def after_cases(spec, flavour):
+    """(mutation, inner search case) pairs: pattern searches from the tree and every surviving position"""
+    pats = PATTERNS[flavour][:6]
+    for mut in mutations(spec, flavour):
+        for ms in pats:
+            yield ("after", mut, ("find_all.m", -1, False, ms, None))
+            yield ("after", mut, ("find_first.m", -1, ms, False))
+        yield ("after", mut, ("find_all.m", 0, True, pats[-1], None))
+        yield ("after", mut, ("find_all.m", -1, False, pats[0], 1))
+
+
 def eval_case(spec, flavour, case, world=None):
     """Returns ([(clause, func, text)], nontrivial).  `world` (from make_world) may be shared between
     cases that do not mutate; 'del' cases always get a fresh tree."""
+    if case[0] == "after":
+        # history: names / searches were evaluated once, then the tree was changed, then the inner case runs on the
+        # changed tree (a result cached before the change must not survive it)
+        world = warmed_and_mutated(spec, flavour, case[1])
+        if world is None or (isinstance(case[2][1], int) and case[2][1] >= len(world[1])):
+            return [], False
+        return eval_case(spec, flavour, tuple(case[2]), world)
     if world is None or case[0] == "del":
         world = make_world(spec, flavour)
     tree, nodes, mk, before = world
@@ -415,6 +474,8 @@ def _ident(p, gone):
 
 def _func_of(case):
     k = case[0]
+    if k == "after":
+        return _func_of(tuple(case[2]))
     if k in ("find_all.m", "find_first.m"):
         return ("Tree." if case[1] == -1 else "Node.") + k[:-2]
     return {"t.find_all.d": "Tree.find_all", "n.find_all.d": "Node.find_all", "t.find_first.d": "Tree.find_first", "n.find_first.d": "Node.find_first",
@@ -534,6 +595,18 @@ def _run_chunk(chunk, prop, timeout, thin=False):
                     res.add_case(_case_repr(spec, flavour, case), nontrivial=nontrivial)
                     for clause, func, text in diffs:
                         _keep_smallest(best, Violation(prop, clause, func, _witness(spec, flavour, case), clip(text)), (len(spec), len(str(case)), str(case)))
+                if 1 <= len(spec) <= (3 if thin else 4) and flavour in ("str", "int", "eqpair"):
+                    for case in after_cases(spec, flavour):
+                        try:
+                            diffs, nontrivial = eval_case(spec, flavour, case)
+                        except _Timeout:
+                            raise
+                        except Exception:  # noqa: BLE001
+                            res.errors.append(f"{_case_repr(spec, flavour, case)}: {traceback.format_exc()[-800:]}")
+                            continue
+                        res.add_case(_case_repr(spec, flavour, case), nontrivial=nontrivial)
+                        for clause, func, text in diffs:
+                            _keep_smallest(best, Violation(prop, clause, func, _witness(spec, flavour, case), clip(text)), (len(spec), len(str(case)), str(case)))
             except _Timeout:
                 if case is not None:
                     res.violations.append(Violation(prop, CL_TERM, _func_of(case), _witness(spec, flavour, case), f"no result within {timeout}s for the cases of this tree (last case started: {case})"))
@@ -582,7 +655,8 @@ def run(prop: str, tier: str, only=None) -> Result:
         f"+ {n_rand} seeded random trees with {5 if quick else 6}..7 nodes (VERIF_SEED={seed()}); every start node and the tree; "
         "match = 15 patterns + 7 (pattern, flags) forms + every node subset as callback (<= 4 nodes; label subsets above), add_self on/off, max_results in {None, 1..n+1}" + (" ({None,1,2,n+1} for trees of >= 4 nodes)" if quick else "") + "; "
         "data / data_id / node_id keys: every label's data (present or absent), every node's data_id and node_id, literal ints 0..n+2, 7 and strings, a Node key; "
-        "tree[key], del tree[key], key in tree for all of them"
+        "tree[key], del tree[key], key in tree for all of them; histories: for trees of <= " + ("3" if quick else "4") + " nodes (str / int / equal-data flavours) every pattern search again after "
+        "all names and searches were evaluated once and one change was applied (set_data to every other label with and without clones, remove, move_to every target, add)"
     )
     return total
 
